@@ -106,6 +106,19 @@ def draw_cfg(rng, profile=None):
         run['f_live'] = rng.choice([0.2, 0.3])
         run['n_shell'] = 1
 
+    if rng.random() < profile.get('p_frequent_bounds', 0.1):
+        # tiny batches and very frequent bounds: shells that end up empty
+        # and are removed when exploration ends
+        sampler['n_batch'] = rng.choice([1, 1, 2])
+        sampler['n_live'] = rng.choice([10, 12, 16])
+        sampler['n_update'] = rng.choice([1, 2, 3])
+        sampler['n_networks'] = 0
+        sampler['n_points_min'] = None
+        sampler['enlarge_per_dim'] = rng.choice([1.1, 1.5])
+        run['n_shell'] = 1
+        run['n_eff'] = rng.choice([0, 20])
+        run['f_live'] = rng.choice([0.01, 0.05])
+
     def pool_spec(p):
         if rng.random() >= p:
             return None
@@ -155,6 +168,7 @@ class World:
         self.batches_done = 0       # completed add_samples calls
         self.timeline = []          # per completed batch: state signature
         self.sample_shell_ctx = None
+        self.nb_before_end = None
         CURRENT['world'] = self
         REC.reset()
         CLOCK.reset()
@@ -189,7 +203,7 @@ class World:
         raise Violation(prop, cls, msg, detail)
 
     # -- sampler construction ----------------------------------------------
-    def new_sampler(self, how='fresh'):
+    def new_sampler(self, how='fresh', resume=True):
         from nautilus import Sampler
         cfg = self.cfg
         sc = cfg['sampler']
@@ -208,9 +222,11 @@ class World:
             n_networks=sc['n_networks'],
             neural_network_kwargs=_nn_kwargs(sc['nn_kwargs']),
             n_batch=sc['n_batch'], n_like_new_bound=sc['n_like_new_bound'],
-            pool=pool, seed=sc['seed'], filepath=self.filepath, resume=True)
+            pool=pool, seed=sc['seed'], filepath=self.filepath,
+            resume=resume)
         kwargs.update(kw)
-        existed = self.filepath is not None and os.path.exists(self.filepath)
+        existed = (resume and self.filepath is not None and
+                   os.path.exists(self.filepath))
         old = self.sampler
         self.sampler = None
         try:
@@ -274,6 +290,8 @@ class World:
                 world.count(world.probes, 'transfers_applied',
                             npend0 - npend1)
             world.batches_done += 1
+            if not s.explored:
+                world.nb_before_end = len(s.bounds)
             world.timeline.append(world.signature())
             world.event('add_samples', shell=int(shell))
             world.notify('post_add_samples', shell=shell)
@@ -322,6 +340,7 @@ class World:
         if timeout is not None:
             kw['timeout'] = timeout
         explored0 = bool(s.explored)
+        nb0 = len(s.bounds)
         info = dict(label=label, n_like_max=nlm, timeout=timeout,
                     n_like0=int(s.n_like), t0=CLOCK.now, batch0=REC.batch,
                     rows0=REC.n_rows, kwargs=kw, explored0=explored0)
@@ -340,6 +359,10 @@ class World:
         self.last_run = info
         if s.explored and not explored0:
             self.count(self.probes, 'exploration_ended')
+            if self.nb_before_end is not None and len(
+                    s.bounds) < self.nb_before_end:
+                self.count(self.probes, 'empty_shells_removed',
+                           self.nb_before_end - len(s.bounds))
         self.event(label, ret=bool(ret), nlm=nlm, timeout=timeout)
         self.notify('run_return', **info)
         return ret
@@ -369,6 +392,17 @@ class World:
                 self.count(self.probes, 'resume_with_pending_transfers')
             self.notify('pre_resume', how='stop')
             return self.resume('stop')
+        if kind == 'restart_fresh':
+            # the user starts over at the same path: resume=False must
+            # ignore and overwrite whatever file is there
+            self.count(self.faults, 'restart_fresh_over_old_file')
+            REC.reset()
+            REC.clock = CLOCK
+            REC.cost = self.cfg.get('cost', 0.0)
+            self.batches_done = 0
+            self.timeline = []
+            self.notify('restart_fresh')
+            return self.new_sampler(how='overwrite', resume=False)
         if kind == 'kill':
             REC.arm_kill(op[1], op[2])
             limit = None if len(op) < 4 or op[3] is None else (
@@ -635,11 +669,11 @@ def draw_history(rng, cfg, timeline, profile=None):
             b = rng.choice(ins) + rng.choice([0, 0, 1])
         elif r < 0.4 and endexp:
             b = endexp[0] + rng.choice([-1, 0, 0, 1])
-        elif r < 0.5 and pend:
+        elif r < 0.55 and pend:
             b = rng.choice(pend)
-        elif r < 0.6:
+        elif r < 0.62:
             b = rng.choice([0, 1, 1, 2])
-        elif r < 0.8 and first_samp < B:
+        elif r < 0.82 and first_samp < B:
             b = rng.randrange(first_samp, B + 1)
         else:
             b = rng.randrange(0, B + 1)
